@@ -246,7 +246,7 @@ pub fn build() -> Property {
     Property {
         id: "C14",
         rule: "G_frame streams (arbitrary header values, packet counts up to 260 incl. 99..101 and 199..201, payload totals beyond 2^16, colliding populations, any of the 20 known system ids on packet 0) and G_conf streams with G_mut edits \
-               x modes {5 checks, 3 views, filtered writing} x filter {none, link, FEE, stave; present / absent} x {JSON, TOML} x {file, pipe}. Ground truth recomputed from the input with the independent walker: RDHs visited (all packets read), RDHs matching, \
+               x modes {5 checks, 3 views, filtered writing} x filter {none, link, FEE, stave; present / absent} x {JSON, TOML} x {file, pipe} (+ occasionally -v 0/2/3 and, next to a check or view with a filter, an ignored -o destination). Ground truth recomputed from the input with the independent walker: RDHs visited (all packets read), RDHs matching, \
                payload bytes of the packets handed on, sorted link set, FEE-id set (no duplicates), run trigger type / version / data format / system id of packet 0, total errors = listed + custom, distinct codes = codes in the listed messages; \
                in check and view modes additionally HBFs (stop bit exactly 1), layer/stave set (if the first analysed packet is ITS) and the 20 per-bit trigger counters over the packets handed on; in write mode those are 0. Report rows are cross-checked. \
                Non-trivial = a filter that skips packets, >= 101 packets, or >= 2 links.",
